@@ -43,6 +43,7 @@ func runC04(c *kit.Ctx) {
 	r8 := c.Rule("R8", "a row the store inserts can be read back by the store", 4)
 
 	c04R1(c, m, r1)
+	c04OneTx(c, m, r1)
 	checkTxTypestate(c, m, r2)
 	checkHandlers(c, m, nil, r3, nil)
 	c04R4(c, m, r4)
@@ -50,6 +51,87 @@ func runC04(c *kit.Ctx) {
 	c04R6(c, m, r6)
 	c04R7(c, m, r7)
 	c04Nullability(c, m, r8)
+}
+
+// c04OneTx: the batch of one message is written by ONE call of the function that
+// owns the transaction.  Between a message handler and that function there may be
+// a wrapper (pre-checks, de-duplication); neither the handler nor the wrapper may
+// reach the transaction function twice for one batch (a loop over slices of the
+// batch, a second call for the rest): a crash between the two commits would leave
+// a part of a batch that was never acknowledged.
+func c04OneTx(c *kit.Ctx, m *storeModel, r1 *kit.Rule) {
+	for _, w := range m.writers {
+		type level struct {
+			g      *kit.Func
+			callee *kit.Func
+		}
+		var levels []level
+		if w.Entry != w.F {
+			levels = append(levels, level{w.Entry, w.F})
+		}
+		for _, g := range c.P.Funcs("store") {
+			if g.Body == nil || g.Lit != nil || g == w.Entry || g == w.F {
+				continue
+			}
+			// a message handler, or a helper of one that receives the decoded batch
+			var bp types.Object
+			for _, p := range g.Params() {
+				if kit.IsNamedType(p.Type(), dataPkg, "Points") {
+					bp = p
+				}
+			}
+			for _, call := range g.AllCalls(true) {
+				if g.CalleeFunc(call) != w.Entry {
+					continue
+				}
+				passes := false
+				for _, a := range call.Args {
+					if bp != nil && kit.ObjOf(g.Info(), a) == bp {
+						passes = true
+					}
+				}
+				if isMsgHandler(g) || passes {
+					levels = append(levels, level{g, w.Entry})
+					break
+				}
+			}
+		}
+		if len(levels) == 0 {
+			r1.Ob(w.F, nil, w.Table+": one transaction per batch", "the handler reaches the transaction function once per message").
+				Undecided("no message handler calls %s", w.Entry.Name)
+			continue
+		}
+		for _, lv := range levels {
+			g, callee := lv.g, lv.callee
+			o := r1.Ob(g, nil, w.Table+": one transaction per batch in "+g.Name, "on every path "+callee.Name+" is called at most once for the batch")
+			st := &kit.Std{F: g}
+			st.ShouldInline = func(cf *kit.Func, call *ast.CallExpr) bool { return false }
+			st.OnCall = func(call *ast.CallExpr, n ast.Node, s kit.S) []kit.S {
+				if st.Cur().CalleeFunc(call) == callee {
+					if s.Get("wr") == "" {
+						return []kit.S{s.Set("wr", "1")}
+					}
+					return []kit.S{s.Set("wr", "2")}
+				}
+				return nil
+			}
+			res := c.P.Graph(g).Run(kit.NewS(), st.Client())
+			if res.Overflow {
+				c.Fatalf("R1 one-transaction overflow in %s", g.Name)
+			}
+			twice := false
+			for _, e := range res.Exits {
+				if e.State.Get("wr") == "2" {
+					twice = true
+				}
+			}
+			if twice {
+				o.Violation("%s can call %s more than once for one batch: every call is its own transaction, so a crash between them leaves a part of a batch that was never acknowledged", g.Name, callee.Name)
+			} else {
+				o.OK("at most one call on every path")
+			}
+		}
+	}
 }
 
 // c04R7: the committed-but-not-checkpointed part of the store lives in the
